@@ -61,7 +61,7 @@ def results_through_funnel(ck, rule):
                     if k.arg is None and isinstance(k.value, ast.Name):
                         # **kwargs : find kwargs['n_frac'] store on the path
                         for st in pf.stores:
-                            if isinstance(st.target, ast.Subscript) and st.path == k.value.id and const_str(st.target.slice) == "n_frac":
+                            if isinstance(st.target, ast.Subscript) and (st.path == k.value.id or (st.base is not None and dotted(st.base) == k.value.id)) and const_str(st.target.slice) == "n_frac":
                                 knf = st.value
                     elif k.arg is None and isinstance(k.value, ast.Call) and dotted(k.value.func) == "dict":
                         # **dict(kwargs, n_frac=...) : a copy of the keyword record with the entry set
@@ -409,9 +409,9 @@ def sizing_record(ck, rule):
     for pf in pfs:
         if pf.end != "return" or pf.ret is None:
             continue
-        gopt = [g for g in pf.guards if g[2] is not None and isinstance(g[2], ast.Compare) and dotted(g[2].left) == "sizing" and const_str(g[2].comparators[0]) == "optimal" and g[1]]
-        gnn = [g for g in pf.guards if g[2] is not None and isinstance(g[2], ast.Compare) and dotted(g[2].left) == "optimal_size" and isinstance(g[2].ops[0], ast.IsNot) and g[1]]
-        if not gopt or not gnn:
+        from ..common import str_state
+        eq, ne = str_state(pf.guards, "sizing")
+        if not (eq is not None and eq == {"optimal"}) or none_state(pf.guards, "optimal_size") is not False:
             continue
         r = pf.ret
         if not (isinstance(r, ast.Tuple) and len(r.elts) == 4):
